@@ -49,6 +49,31 @@ def run(ctx):
                 s2 = U.analyze(d.id, frozenset())
                 R.ob(not s2, "U-RETURN", d.where(), "U-RETURN|handler:%s|%s" % (name, d.kind),
                      "eth_getLogs returns logs in hash iteration order (%s)" % ", ".join(sorted(s.split("@")[-1] for s in s2)))
+    # "any range of at most 6 blocks is served": the range test of get_logs is the only refusal on the way - the RPC handler and
+    # the engine method hand the request on and propagate errors, they do not refuse on a condition of their own (a second,
+    # stricter range test in front of the database's is a spurious refusal of a width the contract serves)
+    n_fw = 0
+    for name, ms, handlers, c in roles.rpc_methods(F):
+        if name != "eth_getLogs":
+            continue
+        for h in handlers:
+            for d in [F.fns[h]] + F.descendants(h):
+                if not d.blocks:
+                    continue
+                dv = F.inlined(d)
+                n_fw += 1
+                for (ln, cond) in T.unexpected_refusals(dv):
+                    R.violation("GUARD", "%s:%s" % (dv.loc["f"], ln), "GUARD|eth_getLogs|handler-refusal",
+                                "the eth_getLogs handler refuses on a condition of its own (`%s`): every range the database serves must be served" % cond)
+    import enginerules as _ER
+    egl = _ER.engine_methods(F).get("get_logs")
+    if egl is not None:
+        n_fw += 1
+        for (ln, cond) in T.unexpected_refusals(egl):
+            R.violation("GUARD", "%s:%s" % (egl.loc["f"], ln), "GUARD|eth_getLogs|engine-refusal",
+                        "engine.get_logs refuses on a condition of its own (`%s`)" % cond)
+    R.ok(1, sample={"rule": "GUARD", "fn": "eth_getLogs handler / engine.get_logs", "own_refusals": "none", "bodies": n_fw})
+    R.floor("get_logs_forwarding_bodies", n_fw, 2)
     # 2. range guard
     scans = [c for c in fn.calls() if (c.method or "") == "get_range" and not fn.is_cleanup(c.bb)]
     R.ob(len(scans) == 1, "ANCHOR", fn.where(), "ANCHOR|get_logs|scan", "expected one index scan in get_logs, found %d" % len(scans))
